@@ -125,9 +125,9 @@ func suite(length int) hlib.Suite {
 
 func suites(tier string) []hlib.Suite {
 	if tier == "quick" {
-		return []hlib.Suite{suite(6)}
+		return []hlib.Suite{suite(7)}
 	}
-	return []hlib.Suite{suite(8)}
+	return []hlib.Suite{suite(9)}
 }
 
 func main() { hlib.EnumMain("C13", suites) }
